@@ -368,3 +368,104 @@ def target_subtract():
 
 def targets():
     return [target_set_mask(), target_get_mask(), target_getters(), target_pass("low_pass"), target_pass("high_pass"), target_init(), target_parse(), target_to_dict(), target_subtract()]
+
+
+# ------------------------------------------------------------------------------------------------ duplicate / from_dict / average (data flow)
+def target_duplicate_average():
+    """DataSet.from_dict / duplicate / average as glue: from_dict(d) == DataSet(**_parse(d)); duplicate(data, label) imports
+    data.to_dict() without its uuid and with the label replaced iff one is given (nothing else touched, the original's own export
+    dictionary is what is modified, not the data set); average takes ALL points (masked=None) of every data set, refuses differing
+    frequency grids, and builds the result from the first grid and the mean over the data sets (axis 0) in the given order."""
+    from pyvc import overload as O
+
+    def run(sess: Session):
+        # from_dict
+        ns = {}
+        O.load(MOD, ["DataSet.from_dict"], ns)
+        calls = []
+
+        class Cls:
+            def __init__(self, **kw):
+                calls.append(("ctor", kw))
+
+            @staticmethod
+            def _parse(d):
+                calls.append(("_parse", d))
+                return {"frequencies": "F*", "impedances": "Z*", "mask": "M*"}
+        d = {"frequencies": [1], "real_impedances": [2]}
+        out = ns["from_dict"].__func__(Cls, d) if hasattr(ns["from_dict"], "__func__") else ns["from_dict"](Cls, d)
+        sess.check("post", [], z3.BoolVal(isinstance(out, Cls) and calls == [("_parse", d), ("ctor", {"frequencies": "F*", "impedances": "Z*", "mask": "M*"})]), 0, label="from_dict(d) == cls(**cls._parse(d)), the very dictionary handed on")
+        # duplicate
+        for label in (None, "copy"):
+            ns = {"isinstance": lambda a, b: True, "str": str}
+            O.load(MOD, ["DataSet.duplicate"], ns)
+            exported = {"version": 2, "path": "p", "label": "old", "frequencies": "F", "real_impedances": "R", "imaginary_impedances": "I", "mask": "M", "uuid": "U"}
+            got = []
+
+            class Data:
+                n = 0
+
+                def to_dict(self):
+                    Data.n += 1
+                    return exported
+
+            class Cls2:
+                @classmethod
+                def from_dict(cls, dd):
+                    got.append(dict(dd))
+                    return "NEW"
+            fn = ns["duplicate"]
+            fn = fn.__func__ if hasattr(fn, "__func__") else fn
+            out = fn(Cls2, Data(), label=label) if label is not None else fn(Cls2, Data())
+            want = {k: v for k, v in {**exported_copy(exported), "label": (label if label is not None else "old")}.items() if k != "uuid"}
+            sess.check("post", [], z3.BoolVal(out == "NEW" and Data.n == 1 and got == [want]), 0, label=f"duplicate(label={label!r}): import of the export without uuid, label replaced iff given")
+        # average
+        for same in (True, False):
+            recorded = {}
+
+            class DS:
+                def __init__(self, name):
+                    self.name = name
+
+                def get_frequencies(self, masked=False):
+                    recorded.setdefault("f", []).append((self.name, masked))
+                    return ("f", self.name)
+
+                def get_impedances(self, masked=False):
+                    recorded.setdefault("Z", []).append((self.name, masked))
+                    return ("Z", self.name)
+            made = []
+
+            class Cls3:
+                def __init__(self, **kw):
+                    made.append(kw)
+            sets = [DS("a"), DS("b"), DS("c")]
+            ns = {"isinstance": lambda a, b: True, "list": list, "map": map, "all": all, "str": str, "allclose": lambda x, y: recorded.setdefault("cmp", []).append((x, y)) or same,
+                  "array": lambda x: ("array", tuple(x)), "mean": lambda x, axis=None: ("mean", x, axis)}
+            O.load(MOD, ["DataSet.average"], ns)
+            fn = ns["average"]
+            fn = fn.__func__ if hasattr(fn, "__func__") else fn
+            err = None
+            try:
+                fn(Cls3, sets, label="L")
+            except ValueError as ex:
+                err = ex
+            sess.check("post", [], z3.BoolVal(recorded.get("f") == [(n, None) for n in "abc"] and recorded.get("Z") == [(n, None) for n in "abc"]), 0, label=f"average[grids equal={same}]: all points (masked=None) of every data set, frequencies and impedances alike")
+            if same:
+                ok = err is None and made == [{"frequencies": ("f", "a"), "impedances": ("mean", ("array", (("Z", "a"), ("Z", "b"), ("Z", "c"))), 0), "label": "L"}]
+                sess.check("post", [], z3.BoolVal(ok), 0, label="average: result = cls(first grid, mean over the data sets (axis 0) in order, label)")
+                sess.check("post", [], z3.BoolVal(recorded.get("cmp") == [(("f", "a"), ("f", "b")), (("f", "a"), ("f", "c"))]), 0, label="average: every other grid is compared with the first one")
+            else:
+                sess.check("post", [], z3.BoolVal(isinstance(err, ValueError) and not made), 0, label="average: differing grids are refused (ValueError), nothing is built")
+    return (f"{MOD}:DataSet.from_dict/duplicate/average", MOD, "DataSet.duplicate", run)
+
+
+def exported_copy(d):
+    return dict(d)
+
+
+_targets_c05_core = targets
+
+
+def targets():      # noqa: F811
+    return _targets_c05_core() + [target_duplicate_average()]
